@@ -223,7 +223,7 @@ func runC14(r *Runner, g *Gen, tier string) string {
 		} else {
 			t = g.structType(3)
 			if g.r.P(10) {
-				t = named(g.r.Pick("Inner", "Outer", "Inner2")) // static, non-recursive named structs
+				t = named(g.r.Pick("Inner", "Outer", "Inner2", "Emb")) // static, non-recursive named structs
 			}
 		}
 		r.Do(codecOp("desc", cfg, t, ""), t.K == "struct", "desc")
